@@ -32,7 +32,9 @@ def make(ck, rnd, n, pid=PID):
             d = np.array([[[[rnd.choice([0.0, 0.013, 0.37, 1.0, 2.61]) for _ in range(2)] for _ in range(2)] for _ in range(nl)]], dtype=np.float32)
         else:
             d = gen.rand_delays(rnd, c, vals=(0, 0, 1, 2, 3, 5))
-        caps = rnd.choice([4, 4, 8, 16, [rnd.choice([4, 8, 16]) for _ in range(nl + 3)], [rnd.choice([4, 4, 12]) for _ in range(nl + 3)]])
+        caps = rnd.choice([4, 4, 8, 16, [rnd.choice([4, 8, 16]) for _ in range(nl + 3)], [rnd.choice([4, 4, 12]) for _ in range(nl + 3)],
+                           # small capacities exactly on the lines whose INDEX is a port / state-element position, large elsewhere
+                           [4 if x < len(c.s_nodes) else 16 for x in range(nl + 3)]])
         via_s = rnd.random() < 0.3         # stimulus through s[0..2] + s_to_c() instead of waveforms written into the input slots
         inw = wrec.rand_inputs(rnd, c, lanes, multi=not via_s)
         cls = rnd.choice([WaveSim, WaveSimCuda])
@@ -80,7 +82,7 @@ def main(tier=None, replay=None):
             wrec.judge(ck, [build(mt)], [mt], (PID,))
         return ck.finish('replay')
     kernel.run(ck, rnd, (PID,))
-    recs, metas = make(ck, rnd, ck.pick(140, 1500))
+    recs, metas = make(ck, rnd, ck.pick(260, 1500))
     wrec.judge(ck, recs, metas, (PID,))
     ovf = sum(1 for r in recs for x in r['waves'] for im in x if im and im[-1] == wrec.INF + 1)
     ck.count('overflowed-line-waveforms', ovf)
